@@ -67,4 +67,57 @@ def rmOrders (oq nb : Rat) (nSuppliers : Nat) : List Rat :=
   | 0 => []
   | k+1 => (oq * nb) :: List.replicate k 0
 
+/-! ### period costs of a multi-product node (`sim.py:_calculate_period_costs`) -/
+
+/-- One product of the node at the end of a period, as the cost computation reads it. -/
+structure ProdCost where
+  h : Rat                      -- local holding cost rate (`None` counts as 0)
+  p : Rat                      -- stockout cost rate
+  hTransit : Option Rat        -- in-transit rate; `none` = use the holding rate
+  rev : Rat                    -- revenue per unit shipped
+  il : Rat                     -- inventory level
+  heldForCustomers : Rat       -- Σ over successors of outbound_disrupted_items[s][product]
+  inTransit : Rat              -- Σ over internal customers of in_transit_to(s, product)
+  shipped : Rat                -- Σ over successors (external included) of outbound_shipment[s][product]
+deriving Repr
+
+/-- One raw material of the node: the rate of its first internal supplier (0 when it only comes from the
+external supplier), the stock and the items of it held at the node's door from that supplier. -/
+structure RmCost where
+  rate : Rat
+  stock : Rat
+  atDoor : Rat
+deriving Repr
+
+structure MpCostOut where
+  hc : Rat
+  sc : Rat
+  ithc : Rat
+  rv : Rat
+  tc : Rat
+deriving Repr
+
+/-- The raw materials of the node: every raw material used by at least one product, ONCE
+(`raw_materials_by_product('all')`). -/
+def rmsOfNode (b : Bom) (nRM : Nat) : List Nat := (List.range nRM).filter fun r => !(prodsFor b r).isEmpty
+
+def lastD {α} (d : α) : List α → α
+  | [] => d
+  | [x] => x
+  | _ :: xs => lastD d xs
+
+/-- Period costs. Holding: every product's rate × (positive inventory + items held for disrupted customers) plus,
+for every raw material of the node once, the supplier's rate × (stock + items at the door). The reported revenue
+is the one of the product processed last (the code assigns, it does not accumulate); the total subtracts exactly
+the reported revenue. -/
+def mpCosts (b : Bom) (prods : List ProdCost) (rms : List RmCost) : MpCostOut :=
+  let hc := lsum (prods.map fun q => q.h * (pos q.il + q.heldForCustomers)) +
+            lsum ((rmsOfNode b rms.length).map fun r =>
+              let x := rms.getD r { rate := 0, stock := 0, atDoor := 0 }
+              x.rate * (x.stock + x.atDoor))
+  let sc := lsum (prods.map fun q => q.p * neg q.il)
+  let ithc := lsum (prods.map fun q => (match q.hTransit with | none => q.h | some x => x) * q.inTransit)
+  let rv := lastD 0 (prods.map fun q => q.rev * q.shipped)
+  { hc := hc, sc := sc, ithc := ithc, rv := rv, tc := hc + sc + ithc - rv }
+
 end Stockpyl.MP
